@@ -174,3 +174,18 @@ Definition build_request (s : credential_step) : request :=
   let '(op, default, q0) := s in effective_cred op default q0.
 
 Definition build_all (h : list credential_step) : list request := map build_request h.
+
+(* ---------- a server authenticator of a declared kind on an arbitrary request ---------- *)
+(* the four authenticators of security/authenticator.go by what they are declared to read: basic credentials (the
+   Authorization header), an API key in the header of a given name, an API key in the query parameter of a given name,
+   a bearer token (Authorization header, access_token in the query, access_token in a form body). What the callback
+   receives: user and password, or the token paired with an empty second component. *)
+Inductive cred_kind := KBasic | KKeyHeader | KKeyQuery | KBearer.
+Definition token_only (t : bytes) : bytes * bytes := (t, []).
+Definition read_cred (k : cred_kind) (name : bytes) (q : request) : option (bytes * bytes) :=
+  match k with
+  | KBasic => basic_read q
+  | KKeyHeader => option_map token_only (apikey_read name InHeader q)
+  | KKeyQuery => option_map token_only (apikey_read name InQuery q)
+  | KBearer => option_map token_only (bearer_read q)
+  end.
